@@ -692,7 +692,17 @@ def d5_15(ctx):
     lx = _lx(ctx)
     fn = lx.methods["get_tag_list"]
     iso = lx.methods["_isolate_user_tags"]
-    need_info = sorted({n.slice.value for n in ast.walk(iso) if isinstance(n, ast.Subscript) and isinstance(n.slice, ast.Constant) and attr_path(n.value) == "self._info" and isinstance(n.slice.value, str)})
+    # the classifier and the private helpers it calls on self (transitively)
+    reach, todo = [], [iso]
+    while todo:
+        m_ = todo.pop()
+        if m_ in reach:
+            continue
+        reach.append(m_)
+        for c_ in ast.walk(m_):
+            if isinstance(c_, ast.Call) and isinstance(c_.func, ast.Attribute) and isinstance(c_.func.value, ast.Name) and c_.func.value.id == "self" and c_.func.attr in lx.methods and c_.func.attr not in ("_create_tag",):
+                todo.append(lx.methods[c_.func.attr])
+    need_info = sorted({n.slice.value for m_ in reach for n in ast.walk(m_) if isinstance(n, ast.Subscript) and isinstance(n.slice, ast.Constant) and attr_path(n.value) == "self._info" and isinstance(n.slice.value, str)})
     need_cache = sorted({n.slice.value for m in ("_isolate_user_tags", "_get_data_type", "_get_structure_makeup") for n in ast.walk(lx.methods[m])
                          if isinstance(n, ast.Subscript) and isinstance(n.slice, ast.Constant) and attr_path(n.value) == "self._cache" and isinstance(n.slice.value, str)})
     if len(need_info) < 3 or len(need_cache) < 3:
@@ -1007,7 +1017,7 @@ def _structtag_witness(ctx):
     mk = lambda name, size: Obj(kind="member", name=name, size=size)  # noqa: E731
     A, B, H, C = mk("a", 1), mk("b", 4), mk("host", 1), mk("c", 2)
     env = {fac.args.vararg.arg: ((A, 0), (B, 4), (H, 8), (C, 10))}
-    given = {"bit_members": {"x": (8, 0), "y": (8, 3)}, "private_members": {"host"}, "struct_size": 12}
+    given = {"bit_members": {"x": (8, 0), "y": (8, 3), "z": (0, 1)}, "private_members": {"host"}, "struct_size": 14}
     for a in fac.args.kwonlyargs:
         if a.arg not in given:
             return tag, f"unexpected factory parameter {a.arg}"
@@ -1044,11 +1054,81 @@ def _structtag_witness(ctx):
     return tag, (Obj(kind="structtag", **attrs), (A, B, H, C))
 
 
+def _receiver(call, env, it):
+    """The witness a method call is made on, when its receiver is a plain name / attribute / subscript expression."""
+    f = call.func
+    if not isinstance(f, ast.Attribute) or any(isinstance(x, ast.Call) for x in ast.walk(f.value)):
+        return None
+    try:
+        return it.ev(f.value, env)
+    except Exception:
+        return None
+
+
+def _struct_rule(ctx):
+    """The generated Struct class folded on witness members (a, b, an unnamed reserved member, c; member codecs are markers that
+    write / consume one tagged byte): a dict and a sequence are encoded member by member in declaration order with the member's
+    own value; decode visits every member in order on the one stream (the unnamed one too: its byte is consumed) and returns the
+    named members only."""
+    from ..miniinterp import Stream
+
+    DTm = "pycomm3.cip.data_types"
+    st = ctx.model.cls(f"{DTm}:Struct.Struct")
+    enc, dec = st.methods["_encode"], st.methods["_decode"]
+    for unnamed in ("", None):
+        members = (Obj(kind="smember", name="a", tag=0xA0), Obj(kind="smember", name="b", tag=0xB0), Obj(kind="smember", name=unnamed, tag=0xE0), Obj(kind="smember", name="c", tag=0xC0))
+        cls = Obj(kind="struct-class", members=members, _ci=st, _is_class=True)
+
+        def hook(call, env, it):
+            f = call.func
+            if isinstance(f, ast.Attribute) and f.attr in ("encode", "decode"):
+                m = _receiver(call, env, it)
+                if isinstance(m, Obj) and m.__dict__.get("kind") == "smember":
+                    a = it.ev(call.args[0], env)
+                    if f.attr == "encode":
+                        if not isinstance(a, int):
+                            raise _Raise("DataError")
+                        return bytes([m.tag, a])
+                    got = a.read(1)
+                    if not got:
+                        raise _Raise("BufferEmptyError")
+                    return (m.tag, got[0])
+            return UNKNOWN
+
+        lab = "unnamed member ''" if unnamed == "" else "unnamed member None"
+        want = bytes([0xA0, 1, 0xB0, 2, 0xE0, 0, 0xC0, 3])
+        for form, value in (("dict", {"a": 1, "c": 3, unnamed: 0, "b": 2}), ("sequence", [1, 2, 0, 3]), ("tuple", (1, 2, 0, 3))):
+            kind, res = run_function(ctx, st.module, enc, {enc.args.args[0].arg: cls, enc.args.args[1].arg: value}, call_hook=hook, deep=False)
+            res = bytes(res) if isinstance(res, bytearray) else res
+            _report(ctx, ckey(st.key + "._encode", f"witness:{form}:{lab}"), enc, f"struct encode of a {form} ({lab})", (kind, res), ("return", want), "Struct._encode")
+        s_ = Stream(bytes([7, 8, 9, 10, 0x99]))
+        kind, res = run_function(ctx, st.module, dec, {dec.args.args[0].arg: cls, dec.args.args[1].arg: s_}, call_hook=hook, deep=False)
+        key = ckey(st.key + "._decode", f"witness:{lab}")
+        if kind == "unknown":
+            ctx.undecided(key, dec, f"Struct._decode not foldable: {res}")
+        else:
+            wantd = {"a": (0xA0, 7), "b": (0xB0, 8), "c": (0xC0, 10)}
+            ctx.check(kind == "return" and res == wantd and list(res) == ["a", "b", "c"] and s_.pos == 4, key, dec, f"members decoded in order from one stream, the unnamed one consumed and left out ({lab})",
+                      f"Struct._decode on the witness gives {kind} {res!r} after {s_.pos} byte(s); expected {wantd!r} after 4")
+    # a value that lacks a member is refused, not encoded short
+    kind, res = run_function(ctx, st.module, enc, {enc.args.args[0].arg: cls, enc.args.args[1].arg: {"a": 1, "b": 2}}, call_hook=hook, deep=False)
+    key = ckey(st.key + "._encode", "witness:missing member")
+    if kind == "unknown":
+        ctx.undecided(key, enc, f"Struct._encode not foldable on a dict lacking a member: {res}")
+    else:
+        ctx.check(kind == "raise", key, enc, "a dict lacking a member is refused", f"Struct._encode of a dict lacking a member gives {kind} {res!r} instead of raising")
+
+
+rule("C06", "D6.15", "T-WITNESS", floor=8)(_struct_rule)
+rule("C07", "D7.12", "T-WITNESS", floor=8)(_struct_rule)
+
+
 def _structtag_rule(ctx):
-    """StructTag folded on a witness layout (SINT a @0, DINT b @4, private SINT host @8 with BOOL aliases x = bit 0 and
-    y = bit 3, INT c @10, size 12; member codecs are markers that consume / produce their own width): decode reads exactly
-    `size` bytes, every member at its offset (gaps skipped), BOOL aliases from their host byte, private members left out;
-    encode writes every visible member at its offset into a zeroed image of `size` bytes and sets / clears the alias bits."""
+    """StructTag folded on a witness layout (SINT a @0 with the BOOL alias z = its bit 1, DINT b @4, private SINT host @8 with
+    BOOL aliases x = bit 0 and y = bit 3, INT c @10, two bytes of tail padding, size 14; member codecs are markers that consume /
+    produce their own width): decode reads exactly `size` bytes, every member at its offset (gaps skipped), BOOL aliases from
+    their host byte, private members left out; encode writes every visible member at its offset into a zeroed image of `size`
+    bytes and sets / clears the alias bits (a clear alias clears its bit in a visible host member too)."""
     tag, w = _structtag_witness(ctx)
     dec, enc = tag.methods["_decode"], tag.methods["_encode"]
     if isinstance(w, str):
@@ -1065,7 +1145,7 @@ def _structtag_rule(ctx):
         return
     from ..miniinterp import Stream
 
-    image = bytes([0x11, 0xEE, 0xEE, 0xEE, 0x22, 0x23, 0x24, 0x25, 0b00001000, 0xEE, 0x31, 0x32])
+    image = bytes([0x13, 0xEE, 0xEE, 0xEE, 0x22, 0x23, 0x24, 0x25, 0b00001000, 0xEE, 0x31, 0x32, 0xEE, 0xEE])
     outer = Stream(image + b"\x99\x99")
 
     def dhook(call, env, it):
@@ -1086,9 +1166,9 @@ def _structtag_rule(ctx):
     if kind == "unknown":
         ctx.undecided(key, dec, f"StructTag._decode not foldable: {res}")
     else:
-        want = {"a": ("val", "a", b"\x11"), "b": ("val", "b", b"\x22\x23\x24\x25"), "c": ("val", "c", b"\x31\x32"), "x": False, "y": True}
-        ctx.check(kind == "return" and res == want and outer.pos == 12, key, dec, "members at offsets 0 / 4 / 10, aliases from byte 8, host left out, 12 bytes consumed",
-                  f"StructTag._decode on the witness image gives {kind} {res!r} after consuming {outer.pos} byte(s); expected {want!r} after 12")
+        want = {"a": ("val", "a", b"\x13"), "b": ("val", "b", b"\x22\x23\x24\x25"), "c": ("val", "c", b"\x31\x32"), "x": False, "y": True, "z": True}
+        ctx.check(kind == "return" and res == want and outer.pos == 14, key, dec, "members at offsets 0 / 4 / 10, aliases from bytes 8 and 0, host left out, 14 bytes consumed (tail padding included)",
+                  f"StructTag._decode on the witness image gives {kind} {res!r} after consuming {outer.pos} byte(s); expected {want!r} after 14")
 
     def ehook(call, env, it):
         f = call.func
@@ -1096,21 +1176,22 @@ def _structtag_rule(ctx):
             return it.ev(call.args[0], env)
         return UNKNOWN
 
-    given = {"a": b"\x11", "b": b"\x22\x23\x24\x25", "c": b"\x31\x32", "x": True, "y": False}
+    given = {"a": b"\x13", "b": b"\x22\x23\x24\x25", "c": b"\x31\x32", "x": True, "y": False, "z": False}
     kind, res = run_function(ctx, tag.module, enc, {enc.args.args[0].arg: cls, enc.args.args[1].arg: dict(given)}, call_hook=ehook, deep=False)
     key = ckey(tag.key + "._encode", "witness")
     if kind == "unknown":
         ctx.undecided(key, enc, f"StructTag._encode not foldable: {res}")
     else:
-        want = bytes([0x11, 0, 0, 0, 0x22, 0x23, 0x24, 0x25, 0x01, 0, 0x31, 0x32])
+        want = bytes([0x11, 0, 0, 0, 0x22, 0x23, 0x24, 0x25, 0x01, 0, 0x31, 0x32, 0, 0])
         got = bytes(res) if kind == "return" and isinstance(res, (bytes, bytearray)) else res
-        ctx.check(kind == "return" and got == want, key, enc, f"image {want.hex()}", f"StructTag._encode of {given!r} gives {kind} {got.hex() if isinstance(got, bytes) else got!r}; expected {want.hex()} (host byte written only through its alias bits)")
-    given2 = dict(given, x=False, y=True)
+        ctx.check(kind == "return" and got == want, key, enc, f"image {want.hex()}", f"StructTag._encode of {given!r} gives {kind} {got.hex() if isinstance(got, bytes) else got!r}; expected {want.hex()} (hidden host byte written only through its alias bits; the clear alias z clears bit 1 of the visible member a)")
+    given2 = dict(given, x=False, y=True, a=b"\x11", z=True)
     kind, res = run_function(ctx, tag.module, enc, {enc.args.args[0].arg: cls, enc.args.args[1].arg: given2}, call_hook=ehook, deep=False)
     key = ckey(tag.key + "._encode", "witness:other bits")
     if kind != "unknown":
         got = bytes(res) if kind == "return" and isinstance(res, (bytes, bytearray)) else res
-        ctx.check(kind == "return" and isinstance(got, bytes) and len(got) == 12 and got[8] == 0x08, key, enc, "x clear, y set -> host byte 0x08", f"StructTag._encode with x=False, y=True gives host byte {got[8] if isinstance(got, bytes) and len(got) > 8 else got!r}")
+        ctx.check(kind == "return" and isinstance(got, bytes) and len(got) == 14 and got[8] == 0x08 and got[0] == 0x13, key, enc, "x clear, y set -> host byte 0x08; z set -> bit 1 of a",
+                  f"StructTag._encode with x=False, y=True, a=0x11, z=True gives {got.hex() if isinstance(got, bytes) else got!r}; expected host byte 0x08 at offset 8, 0x13 at offset 0 and 14 bytes")
 
 
 rule("C06", "D6.10", "T-WITNESS", floor=3)(_structtag_rule)
@@ -1204,7 +1285,7 @@ def _array_rule(ctx):
     arr = ctx.model.cls(f"{DTm}:Array.Array")
     enc, dec = arr.methods["encode"], arr.methods["decode"]
     usint = ClassRef(ctx.model.cls(f"{DTm}:USINT"))
-    elem, bits, elem2 = Obj(kind="elem", size=1), Obj(kind="bits", size=1), Obj(kind="elem", size=2)
+    elem, bits, elem2, bits2 = Obj(kind="elem", size=1), Obj(kind="bits", size=1), Obj(kind="elem", size=2), Obj(kind="bits", size=2)
 
     def hook(call, env, it):
         n = call_name(call) or ""
@@ -1237,9 +1318,9 @@ def _array_rule(ctx):
             a = it.ev(call.args[0], env)
             if f.attr == "encode":
                 if et.kind == "bits":
-                    if not (isinstance(a, list) and len(a) == 8 and all(isinstance(x, bool) for x in a)):
+                    if not (isinstance(a, list) and len(a) == 8 * et.size and all(isinstance(x, bool) for x in a)):
                         raise _Raise("DataError")
-                    return bytes([sum(1 << i for i, b_ in enumerate(a) if b_)])
+                    return sum(1 << i for i, b_ in enumerate(a) if b_).to_bytes(et.size, "little")
                 if not isinstance(a, int) or isinstance(a, bool) or not 0 <= a < 256:
                     raise _Raise("DataError")
                 return bytes([a])
@@ -1248,7 +1329,7 @@ def _array_rule(ctx):
                 raise _Raise("BufferEmptyError")
             if len(got) < et.size:
                 raise _Raise("DataError")  # a partial element: malformed data, not the end of the array
-            return [bool(got[0] >> i & 1) for i in range(8)] if et.kind == "bits" else int.from_bytes(got, "little")
+            return [bool(int.from_bytes(got, "little") >> i & 1) for i in range(8 * et.size)] if et.kind == "bits" else int.from_bytes(got, "little")
         if n == "_as_stream" and isinstance(f, ast.Name):
             v = it.ev(call.args[0], env)
             return v if isinstance(v, Stream) else Stream(v)
@@ -1275,6 +1356,14 @@ def _array_rule(ctx):
         ("bit strings, fixed 2, 15 bools", cls_w(2, bits), b16[:15], None, ("raise", "DataError")),
         ("bit strings, unbounded, 12 bools", cls_w(None, bits), b16[:12], None, ("raise", "DataError")),
         ("bit strings, USINT-prefixed, 8 bools", cls_w(usint, bits), b16[:8], None, ("return", b"\x01" + pack(b16[:8]))),
+        ("16-bit strings, fixed 2, 32 bools", cls_w(2, bits2), b16 + b16[::-1], None, ("return", pack(b16 + b16[::-1]))),
+        ("16-bit strings, fixed 2, 48 bools (surplus cut)", cls_w(2, bits2), b16 + b16[::-1] + b16, None, ("return", pack(b16 + b16[::-1]))),
+        ("bit strings, fixed 2, 24 bools (surplus cut)", cls_w(2, bits), b16 + b16[:8], None, ("return", pack(b16))),
+        ("16-bit strings, fixed 2, 31 bools", cls_w(2, bits2), (b16 + b16)[:31], None, ("raise", "DataError")),
+        ("16-bit strings, fixed 2, 16 bools", cls_w(2, bits2), b16, None, ("raise", "DataError")),
+        ("16-bit strings, unbounded, 24 bools", cls_w(None, bits2), (b16 + b16)[:24], None, ("raise", "DataError")),
+        ("16-bit strings, unbounded, 32 bools", cls_w(None, bits2), b16 + b16, None, ("return", pack(b16 + b16))),
+        ("16-bit strings, USINT-prefixed, 16 bools", cls_w(usint, bits2), b16, None, ("return", b"\x01" + pack(b16))),
     ]
     ep = [a.arg for a in enc.args.args]
     for label, c, vals, ln, want in ecases:
@@ -1295,6 +1384,7 @@ def _array_rule(ctx):
         ("fixed 2, two-byte elements, buffer cut inside the second", cls_w(2, elem2), b"\x01\x00\x02", None, ("raise", "DataError"), None),
         ("bit strings, fixed 2", cls_w(2, bits), pack(b16) + b"\xff", None, ("return", b16), 2),
         ("bit strings, unbounded", cls_w(None, bits), pack(b16), None, ("return", b16), 2),
+        ("16-bit strings, fixed 1", cls_w(1, bits2), pack(b16) + b"\xff", None, ("return", b16), 2),
     ]
     for label, c, data, ln, want, pos in dcases:
         st = Stream(data)
@@ -1373,6 +1463,16 @@ def _bytes_and_symbol_rule(ctx):
         kind, res = run_function(ctx, ds.module, fn, {fn.args.args[0].arg: cls, fn.args.args[1].arg: Obj(data=name), **({fn.args.args[2].arg: False} if len(fn.args.args) > 2 else {})}, deep=False)
         res = bytes(res) if isinstance(res, bytearray) else res
         _report(ctx, ckey(ds.key + "._encode", f"witness:{name}"), fn, f"symbol {name!r}", (kind, res), ("return", want), "DataSegment._encode")
+    # data that is not text: the plain data segment type (no extended-symbol bit) and the data as they are, last
+    for raw in (b"\x01\x02\x03\x04", b"\x07\x08"):
+        kind, res = run_function(ctx, ds.module, fn, {fn.args.args[0].arg: Obj(_ci=ds, _is_class=True), fn.args.args[1].arg: Obj(data=raw), **({fn.args.args[2].arg: False} if len(fn.args.args) > 2 else {})}, deep=False)
+        res = bytes(res) if isinstance(res, bytearray) else res
+        key = ckey(ds.key + "._encode", f"witness:raw:{raw.hex()}")
+        if kind == "unknown":
+            ctx.undecided(key, fn, f"DataSegment._encode not foldable on raw data: {res}")
+        else:
+            ctx.check(kind == "return" and isinstance(res, bytes) and res[:1] == b"\x80" and res.endswith(raw) and len(res) == len(raw) + 2, key, fn, f"raw data {raw.hex()}: segment 0x80, one length byte, the data unchanged",
+                      f"DataSegment._encode of raw data {raw.hex()} gives {kind} {res!r}; expected 0x80, a length byte and the data unchanged")
     bt = ctx.model.cls(f"{DTm}:BytesDataType")
     fn = bt.methods["_encode"]
     for size, value, want in ((2, b"abcd", b"ab"), (4, b"abcd", b"abcd"), (-1, b"abc", b"abc"), (-1, b"", b""), (6, b"\x01\x02\x03\x04\x05\x06\x07", b"\x01\x02\x03\x04\x05\x06")):
@@ -1792,6 +1892,140 @@ def _forward_open_rule(ctx):
             ctx.check((kind, res) == want and not sent, key, fn, f"{label}: {want[0]} {want[1]!r}, nothing sent", f"_forward_open ({label}): {kind} {res!r}, {len(sent)} request(s) sent")
 
 
+def _session_rule(ctx):
+    """Session and connection bookkeeping of CIPDriver folded on witnesses (send / generic_message / the socket are markers):
+    `_register_session` sends one Register Session request with the configured protocol version and stores the handle of a valid
+    reply only (an invalid reply leaves the handle 0 and returns None; a driver that has a session sends nothing);
+    `_un_register_session` sends the request and clears the handle; `_forward_close` names the connection by the serial / vendor /
+    originator triple of the Forward Open, routed over the configured path + message router with word count and reserved byte,
+    and clears the connected flag only when the reply is valid; `open` connects the socket, draws a fresh connection id and
+    originator serial, and returns True only when a session was registered."""
+    cd = _cd(ctx)
+    ev = lambda s_: ctx.folder.eval(ast.parse(s_, mode="eval").body, cd.module)  # noqa: E731
+
+    def packet_hook(call, env, it):
+        n = call_name(call) or ""
+        if n in ("RegisterSessionRequestPacket", "UnRegisterSessionRequestPacket") and isinstance(call.func, ast.Name):
+            return (n, tuple(it.ev(a, env) for a in call.args))
+        return UNKNOWN
+
+    # ---- _register_session
+    fn = cd.methods["_register_session"]
+    for label, have, reply, want_ret, want_session, want_sent in (
+            ("a valid reply", 0, _resp(True, session=0xABCD, error=None), 0xABCD, 0xABCD, [("RegisterSessionRequestPacket", (b"\x01\x00",))]),
+            ("an invalid reply", 0, _resp(False, session=0x9999, error="refused"), None, 0, [("RegisterSessionRequestPacket", (b"\x01\x00",))]),
+            ("a driver that already has a session", 0x77, _resp(True, session=0xABCD, error=None), 0x77, 0x77, [])):
+        sent = []
+        me = Obj(_ci=cd, _session=have, _cfg={"protocol version": b"\x01\x00"})
+        kind, res = run_function(ctx, cd.module, fn, {"self": me}, call_hook=chain(packet_hook, self_call("send", lambda a, k, sent=sent, reply=reply: sent.append(a[0] if a else k) or reply)), deep=False)
+        key = ckey(cd.key + "._register_session", f"witness:{label}")
+        if kind == "unknown":
+            ctx.undecided(key, fn, f"_register_session not foldable ({label}): {res}")
+            continue
+        ctx.check((kind, res) == ("return", want_ret) and me._session == want_session and sent == want_sent, key, fn, f"{label}: returns {want_ret!r}, session handle {want_session:#x}, {len(want_sent)} request(s)",
+                  f"_register_session with {label}: {kind} {res!r}, session handle {me._session!r}, requests sent {sent!r}; expected return {want_ret!r}, handle {want_session:#x}, requests {want_sent!r}")
+    # ---- _un_register_session
+    fn = cd.methods["_un_register_session"]
+    sent = []
+    me = Obj(_ci=cd, _session=0x77, _cfg={})
+    kind, res = run_function(ctx, cd.module, fn, {"self": me}, call_hook=chain(packet_hook, self_call("send", lambda a, k, sent=sent: sent.append(a[0] if a else k) or _resp(True))), deep=False)
+    key = ckey(cd.key + "._un_register_session", "witness")
+    if kind == "unknown":
+        ctx.undecided(key, fn, f"_un_register_session not foldable: {res}")
+    else:
+        ctx.check(kind == "return" and not me._session and sent == [("UnRegisterSessionRequestPacket", ())], key, fn, "one UnRegister Session request, handle cleared", f"_un_register_session: {kind} {res!r}, handle {me._session!r}, requests {sent!r}")
+    # ---- _forward_close
+    fn = cd.methods["_forward_close"]
+    prio, ticks = (ctx.folder.module_value(cd.module.name, n_) for n_ in ("PRIORITY", "TIMEOUT_TICKS"))
+    mrp = ctx.folder.module_value(cd.module.name, "MSG_ROUTER_PATH")
+    cfg0 = {"cid": b"CID!", "csn": b"SN", "vid": b"VI", "vsn": b"VSN!", "cip_path": ["<route>"]}
+
+    def path_hook(call, env, it):
+        if (attr_path(call.func) or "") == "PADDED_EPATH.encode":
+            kw = {k.arg: it.ev(k.value, env) for k in call.keywords}
+            return ("EPATH", tuple(it.ev(call.args[0], env)), bool(kw.get("length")), bool(kw.get("pad_length", False)))
+        return UNKNOWN
+
+    if isinstance(prio, bytes) and isinstance(ticks, bytes) and isinstance(mrp, (list, tuple)):
+        for label, session, granted in (("granted", 0x1234, True), ("refused", 0x1234, False), ("no session", 0, True)):
+            seen = []
+            me = Obj(_ci=cd, _target_is_connected=True, _session=session, _cfg=dict(cfg0), _target_cid=b"TCID")
+            gm = self_call("generic_message", lambda a, k, seen=seen, granted=granted: seen.append(k) or _resp(granted, value=b"" if granted else None, error=None if granted else "refused"))
+            kind, res = run_function(ctx, cd.module, fn, {"self": me}, call_hook=chain(path_hook, gm), deep=False)
+            key = ckey(cd.key + "._forward_close", f"witness:{label}")
+            if kind == "unknown":
+                ctx.undecided(key, fn, f"_forward_close not foldable ({label}): {res}")
+                continue
+            if not session:
+                ctx.check(kind == "raise" and res == "CommError" and not seen, key, fn, "no session: CommError, nothing sent", f"_forward_close without a session: {kind} {res!r}, {len(seen)} request(s) sent")
+                continue
+            k = seen[0] if len(seen) == 1 else {}
+            diffs = []
+            if len(seen) != 1:
+                diffs.append(f"{len(seen)} requests sent")
+            if k.get("service") != ev("ConnectionManagerServices.forward_close") or k.get("service") != b"\x4e":
+                diffs.append(f"service {k.get('service')!r} (Forward Close is 0x4E)")
+            if k.get("request_data") != prio + ticks + b"SN" + b"VI" + b"VSN!":
+                diffs.append(f"request data {k.get('request_data')!r} (expected priority, ticks and the connection serial / vendor / originator serial of the Forward Open)")
+            if k.get("connected") is not False or k.get("class_code") != ev("ClassCode.connection_manager") or k.get("instance") != ev("ConnectionManagerInstances.open_request"):
+                diffs.append(f"addressing {dict((a, v) for a, v in k.items() if a in ('connected', 'class_code', 'instance'))!r}")
+            if k.get("route_path") != ("EPATH", tuple(["<route>"] + list(mrp)), True, True):
+                diffs.append(f"route {k.get('route_path')!r} (expected the configured path followed by the message router, with word count and reserved byte)")
+            if (kind, res) != ("return", granted) or me._target_is_connected is not (not granted):
+                diffs.append(f"outcome {kind} {res!r}, connected={me._target_is_connected}")
+            ctx.check(not diffs, key, fn, f"Forward Close, {label}: request and outcome as specified", f"_forward_close ({label}): {diffs[:2]}")
+    else:
+        ctx.undecided(ckey(cd.key + "._forward_close", "witness"), fn, "Forward Close constants are not foldable")
+    # ---- open
+    fn = cd.methods["open"]
+    for label, opened, session, fail, want in (("already open", True, None, None, ("return", True)), ("session registered", False, 0x55, None, ("return", True)), ("session refused", False, None, None, ("return", False)),
+                                                ("the socket cannot connect", False, 0x55, "connect", ("raise", "CommError"))):
+        steps = []
+        me = Obj(_ci=cd, _connection_opened=opened, _sock=None, _session=0, _cfg={"socket_timeout": 5, "ip address": "10.0.0.1", "port": 44818, "cid": b"old!", "vsn": b"old!"})
+
+        def hook(call, env, it, steps=steps, fail=fail, session=session):
+            path = attr_path(call.func) or ""
+            n = call_name(call) or ""
+            if n == "Socket" and isinstance(call.func, ast.Name):
+                steps.append("socket")
+                return Obj(kind="socket")
+            if path == "self._sock.connect":
+                steps.append(("connect",) + tuple(it.ev(a, env) for a in call.args))
+                if fail == "connect":
+                    raise _Raise("OSError")
+                return None
+            if n == "urandom":
+                steps.append("rnd")
+                w_ = it.ev(call.args[0], env)
+                return bytes([0xA0 + steps.count("rnd")]) * w_ if isinstance(w_, int) else UNKNOWN
+            if path == "self._register_session":
+                steps.append("register")
+                return session
+            return UNKNOWN
+
+        kind, res = run_function(ctx, cd.module, fn, {"self": me}, call_hook=hook, deep=False)
+        key = ckey(cd.key + ".open", f"witness:{label}")
+        if kind == "unknown":
+            ctx.undecided(key, fn, f"open not foldable ({label}): {res}")
+            continue
+        diffs = []
+        if (kind, res) != want:
+            diffs.append(f"{kind} {res!r} (expected {want[0]} {want[1]!r})")
+        if opened and steps:
+            diffs.append(f"an open driver does {steps!r}")
+        if not opened and fail is None:
+            if [s_ for s_ in steps if s_ != "rnd"] != ["socket", ("connect", "10.0.0.1", 44818), "register"]:
+                diffs.append(f"steps {steps!r} (expected a socket, connect to the configured address and port, then the session)")
+            cid_, vsn_ = me._cfg.get("cid"), me._cfg.get("vsn")
+            if cid_ in (b"old!", None) or vsn_ in (b"old!", None) or not me._connection_opened:
+                diffs.append(f"connection id / originator serial not drawn afresh or the driver not marked open: {cid_!r} {vsn_!r} {me._connection_opened}")
+            elif not (isinstance(cid_, bytes) and isinstance(vsn_, bytes) and len(cid_) == 4 and len(vsn_) == 4):
+                diffs.append(f"connection id {cid_!r} / originator serial {vsn_!r} are not 4 bytes each (the Forward Open fields are 4 bytes wide)")
+        ctx.check(not diffs, key, fn, f"open(), {label}: {want[0]} {want[1]!r}", f"open() with {label}: {diffs[:2]}")
+
+
+rule("C10", "D10.13", "T-WITNESS", floor=10)(_session_rule)
+rule("C11", "D11.11", "T-WITNESS", floor=10)(_session_rule)
 rule("C10", "D10.11", "T-WITNESS", floor=20)(_close_rule)
 rule("C10", "D10.12", "T-WITNESS", floor=6)(_forward_open_rule)
 
